@@ -148,7 +148,9 @@ impl Space {
         card[D_STYP] = 3;
         card[D_HASH] = 1 + HASHES.len() as u8;
         card[D_ENC] = 21;
-        card[D_AEADCS] = 1 + if quick { 11 } else { 17 };
+        // every chunk-size octet 0..=16 (64 octets .. 4 MiB) in both tiers
+        let _ = quick;
+        card[D_AEADCS] = 1 + 17;
         card[D_NPW] = 3;
         card[D_S2K] = 4;
         card[D_NKEY] = 3;
@@ -1441,6 +1443,11 @@ fn targets(quick: bool) -> Vec<Target> {
                     v.push(Target { layer: Layer::I, kind: 2, block: b, k, d });
                 }
             }
+        }
+    } else {
+        // quick: one chunk of the large sizes (the decryptor's read-ahead must hold a whole chunk)
+        for (b, d) in [(1u32 << 20, -1), (1 << 20, 0), (1 << 20, 1), (1 << 21, 0), (1 << 22, 0)] {
+            v.push(Target { layer: Layer::I, kind: 2, block: b, k: 1, d });
         }
     }
     v
